@@ -100,7 +100,7 @@ def c05_tables(tier, seed):
                 bad.append(('Cp/R', c_, cp(T)))
             if not real.close(g, ci.get_HoRT(T) - ci.get_SoR(T), 1e-12, 1e-12):
                 bad.append(('G/RT', g, 'H-S'))
-            if bad and len(viol) < 10:
+            if bad and _room(viol, 10):
                 viol.append({'id': 'table%d-T%g' % (t, T), 'input': {'Ts': [Ts[i] for i in order], 'Cps': [Cps[i] for i in order], 'T_ref': T_ref, 'H_ref': H, 'S_ref': S, 'range': [lo, hi], 'T': T},
                              'observed': bad, 'expected': 'closed-form integrals of the extended Cp'})
         # Cp/R for an ARRAY of temperatures (integer- and float-typed) equals the scalar answers
@@ -114,7 +114,7 @@ def c05_tables(tier, seed):
                 arr = real.outcome(c.get_CpoR, grid)
                 sc = [c.get_CpoR(float(t_)) for t_ in grid]
             if arr[0] != 'ok' or len(np.atleast_1d(arr[1])) != len(sc) or any(not real.close(float(a_), b_, 1e-12, 1e-12) for a_, b_ in zip(np.atleast_1d(arr[1]), sc)):
-                if len(viol) < 12:
+                if _room(viol, 12):
                     viol.append({'id': 'table%d-array-%s' % (t, grid.dtype), 'input': {'Ts': [Ts[i] for i in order], 'Cps': [Cps[i] for i in order], 'T_ref': T_ref, 'range': [lo, hi], 'T array': [float(x) for x in grid], 'dtype': str(grid.dtype)},
                                  'observed': str(arr)[:200], 'expected': sc})
         if len(samples) < 3:
@@ -146,7 +146,7 @@ def c06_edges(tier, seed):
                 ok = (kind == 'exc' and v == 'IncompleteDataError') or (kind == 'ok' and isinstance(v, float) and math.isfinite(v))
             else:
                 ok = kind == 'exc' or (warned and not has_cp_all)
-            if not ok and len(viol) < 12:
+            if not ok and _room(viol, 12):
                 viol.append({'id': '%s-%s-%g' % (tag, m, T), 'input': {'object': tag, 'method': m, 'T': T, 'inside_range': inside},
                              'observed': [kind, repr(v), 'warned' if warned else 'no warning'], 'expected': 'finite number' if inside else 'error (or warning when a constituent has no Cp data)'})
     libs = real.LIBS if tier != 'quick' else real.LIBS[:4]
@@ -307,7 +307,7 @@ def c07_units(tier, seed):
                         bad.append(('G', G, H - T * S))
                     if not real.close(Gel, H - T * Sel, 1e-10, 1e-12 * abs(H)) or not real.close(Sel, s_el * RK, 1e-12, 0):
                         bad.append(('G/S rel. elements', Gel, H - T * Sel))
-                    if bad and len(viol) < 12:
+                    if bad and _room(viol, 12):
                         viol.append({'id': '%s-%s-%s' % (libname, smi, u.replace('/', '_')), 'input': {'library': libname, 'smiles': smi, 'units': u, 'T': T}, 'observed': bad,
                                      'expected': 'non-dimensional value times R(units) (and T)'})
             if len(samples) < 3:
@@ -330,7 +330,7 @@ def c07_units(tier, seed):
             sele = sum(c.S_elements[a.GetAtomicNum()] for a in Chem.AddHs(Chem.MolFromSmiles(m1)).GetAtoms())
             plain = real.outcome(e1.get_SoR, T)
             ok = first[0] == again[0] == plain[0] == 'ok' and real.close(first[1], again[1], 1e-12, 1e-12) and real.close(plain[1] - again[1], sele, 1e-10, 1e-10)
-            if not ok and len(viol) < 14:
+            if not ok and _room(viol, 14):
                 viol.append({'id': '%s-%s-held-estimate' % (libname, m1), 'input': {'library': libname, 'estimate of': m1, 'then decomposed': m2, 'T': T},
                              'observed': {'S/R rel. elements at once': first, 'after the other decomposition': again, 'S/R': plain}, 'expected': 'S/R - %r both times' % sele,
                              'script': "import pgradd.ThermoChem\nfrom pgradd.GroupAdd.Library import GroupLibrary\nlib = GroupLibrary.Load(%r)\ne = lib.Estimate(lib.GetDescriptors(%r), 'thermochem')\na = e.get_SoR(%r, S_elements=True)\nlib.GetDescriptors(%r)\nprint(a, e.get_SoR(%r, S_elements=True))   # expected twice the same\n" % (libname, m1, T, m2, T)})
@@ -345,7 +345,7 @@ def c07_units(tier, seed):
                     continue
                 want = real.outcome(lambda: lib.Estimate(d1, 'thermochem').get_SoR(400.0, S_elements=True))
                 got = real.outcome(lambda: lib.Estimate(lib.GetDescriptors(Chem.MolFromSmiles(smi)), 'thermochem').get_SoR(400.0, S_elements=True))
-            if want[0] == 'ok' and (got[0] != 'ok' or not real.close(got[1], want[1], 1e-12, 1e-12)) and len(viol) < 14:
+            if want[0] == 'ok' and (got[0] != 'ok' or not real.close(got[1], want[1], 1e-12, 1e-12)) and _room(viol, 14):
                 viol.append({'id': '%s-%s-mol-object-elements' % (libname, smi), 'input': {'library': libname, 'structure': 'Chem.MolFromSmiles(%r)' % smi, 'T': 400.0}, 'observed': got, 'expected': want,
                              'script': "import pgradd.ThermoChem\nfrom rdkit import Chem\nfrom pgradd.GroupAdd.Library import GroupLibrary\nlib = GroupLibrary.Load(%r)\nprint(lib.Estimate(lib.GetDescriptors(Chem.MolFromSmiles(%r)), 'thermochem').get_SoR(400., S_elements=True))\n" % (libname, smi)})
     # (iii) the correlations of single groups (with and without heat-capacity data), away from their reference temperature
@@ -367,7 +367,7 @@ def c07_units(tier, seed):
                             bad.append((nm, dim, nd))
                     if h[0] == s_[0] == 'ok' and (G[0] != 'ok' or not real.close(G[1], (h[1] - s_[1]) * T * RK, 1e-10, 1e-12 * abs(h[1] * T * RK))):
                         bad.append(('G', G, (h[1] - s_[1]) * T * RK))
-                    if bad and len(viol) < 16:
+                    if bad and _room(viol, 16):
                         viol.append({'id': '%s-group-%s-%s-%g' % (libname, g, u.replace('/', '_'), T), 'input': {'library': libname, 'group': str(g), 'units': u, 'T': T}, 'observed': [str(b) for b in bad],
                                      'expected': 'non-dimensional value of the same correlation times R(units) (and T); same failure when the non-dimensional one fails'})
     return {'name': 'dimensional-getters', 'evaluations': n, 'distinct_nontrivial': sum(len(v) for v in mols.values()), 'violations': viol, 'samples': samples,
@@ -423,7 +423,7 @@ def c20_se(tier, seed):
                     if wk == 'exc':
                         continue
                     ok = kind == 'ok' and type(got) is float and got >= 0 and real.close(got, want, 1e-9, 1e-12)
-                    if not ok and len(viol) < 12:
+                    if not ok and _room(viol, 12):
                         viol.append({'id': '%s-%s-%s-%g' % (name, tag, m, T), 'input': {'library': name, 'groups': {str(k): v for k, v in groups.items()}, 'T': T, 'property': m},
                                      'observed': [kind, repr(got)], 'expected': want})
         idx = range(len(D)) if tier != 'quick' else rnd.sample(range(len(D)), min(12, len(D)))
@@ -596,7 +596,7 @@ def c12_presentations(tier, seed):
             for kind, vals in results.items():
                 ok = all((a[0] == b[0]) and (a[0] == 'exc' and a[1] == b[1] or a[0] == 'ok' and isinstance(a[1], float) and isinstance(b[1], float)
                                              and real.close(a[1], b[1], 1e-6, 1e-9)) for a, b in zip(vals, results[base_kind]))
-                if not ok and len(viol) < 12:
+                if not ok and _room(viol, 12):
                     viol.append({'id': 'g%d-%s-vs-%s' % (gi, kind, base_kind), 'input': {'H_J_mol': H, 'S': S, 'Cp': cps, 'presentations': [kind, base_kind], 'load_order': order},
                                  'observed': vals[:6], 'expected': results[base_kind][:6]})
             if len(samples) < 2:
@@ -670,7 +670,7 @@ def c13_merges(tier, seed):
         distinct += 1
         want = (data['H'], data['S'], tuple(sorted(data['cp'].items())), (200.0, 1500.0), 298.15, bool(data['cp']), (rnd12(data['H']), rnd12(data['S'])), 'ThermochemIncomplete')
         if len(finals) != 1 or next(iter(finals)) != want:
-            if len(viol) < 12:
+            if _room(viol, 12):
                 viol.append({'id': 'case%d-union' % ci, 'input': {'data': data, 'parts': parts}, 'observed': sorted(finals, key=repr)[:2], 'expected': want})
         # injected conflict: rejected, target unchanged
         full = build(pieces)
@@ -699,7 +699,7 @@ def c13_merges(tier, seed):
                 got = type(e).__name__
             after = state(full)
             if got != 'ReadOnlyDataError' or before != after:
-                if len(viol) < 12:
+                if _room(viol, 12):
                     viol.append({'id': 'case%d-conflict-%s' % (ci, what), 'input': {'data': data, 'conflicting': what}, 'observed': [got, 'changed' if before != after else 'unchanged'],
                                  'expected': ['ReadOnlyDataError', 'unchanged']})
                 full = build(pieces)
@@ -967,12 +967,31 @@ def c08_matcher(tier, seed):
                 except Exception as e:    # noqa
                     got = 'raised %s' % type(e).__name__
                 if got == 'raised' or sorted(got) != sorted(want):
-                    if len(viol) < 15:
+                    if _room(viol, 15):
                         viol.append({'id': 'match-%d' % len(viol), 'input': {'fragment': text, 'molecule': smi}, 'observed': got if isinstance(got, str) else sorted(got),
                                      'expected': sorted(want),
                                      'script': "from rdkit import Chem\nfrom pgradd.RINGParser.Reader import Read\nprint(Read(%r).GetQueryMatches(%s))  # expected %r\n" % (text, smi, sorted(want))})
             if len(samples) < 4 and (c1 or t2):
                 samples.append(text)
+    # the NAME of a label carries no meaning: labels that begin with (or are) a word of the language ('labeledx', 'tox', 'ringbondy', 'single1') denote the
+    # same fragment as 'x', in every position where a label can stand (atom, bond target, both ends of a ringbond statement, constraint-free)
+    ring3 = 'fragment f{ C labeled %(a)s C labeled %(b)s single bond to %(a)s C labeled %(c)s single bond to %(b)s ringbond %(first)s ring bond to %(second)s }'
+    with real.quiet():
+        ref3 = sorted(map(tuple, Read(ring3 % {'a': 'x', 'b': 'y', 'c': 'z', 'first': 'x', 'second': 'z'}).GetQueryMatches(Chem.MolFromSmiles('C1CC1C'))))
+        for lab in ('labeledx', 'labeled_1', 'tox', 'ringbondy', 'single1', 'bondto', 'anyatom', 'fragmentf', 'connected', 'Cx', 'labeled'):
+            for where in ('first', 'second'):
+                names = {'a': 'x', 'b': 'y', 'c': 'z'}
+                names['a' if where == 'first' else 'c'] = lab
+                names.update({'first': names['a'], 'second': names['c']})
+                t3 = ring3 % names
+                n += 1
+                try:
+                    got = sorted(map(tuple, Read(t3).GetQueryMatches(Chem.MolFromSmiles('C1CC1C'))))
+                except Exception as e:    # noqa
+                    got = 'raised %s: %s' % (type(e).__name__, str(e)[:60])
+                if got != ref3:
+                    viol.append({'id': 'label-name-%s-%s' % (lab, where), 'input': {'fragment': t3, 'molecule': 'C1CC1C'}, 'observed': got, 'expected': ref3,
+                                 'script': "from rdkit import Chem\nfrom pgradd.RINGParser.Reader import Read\nprint(Read(%r).GetQueryMatches(Chem.MolFromSmiles('C1CC1C')))\n" % t3})
     # layout INSIDE multi-word keywords (known finding K7): the same fragment with two blanks / a tab / a line break inside a keyword
     base_texts = ['fragment f{ C labeled c1 {connected to >1 H} }', 'fragment f{ C labeled c1 O labeled o1 single bond to c1 }', 'fragment f{ any atom labeled x {in ring of size 3} }']
     with real.quiet():
@@ -997,6 +1016,11 @@ def c08_matcher(tier, seed):
 
 
 # ---------------------------------------------------------------------------------------------- C02 / C03 / C04
+def _room(viol, cap):
+    """the cap on reported violations counts only those that are NOT instances of a recorded finding (they must never crowd out a new one)"""
+    return sum(1 for v in viol if not v.get('cls')) < cap
+
+
 def _norm(d):
     return {k: v for k, v in d.items() if v != 0}
 
@@ -1027,7 +1051,7 @@ def c02_reference(tier, seed):
             if not same:
                 m = Chem.AddHs(Chem.MolFromSmiles(smi))
                 cls = 'K2:fused-six-rings' if S.fused_six_rings(m) else None
-                if len(viol) < 15 or cls:
+                if _room(viol, 15) or cls:
                     viol.append({'id': '%s-%s' % (name, smi), 'cls': cls, 'input': {'library': name, 'smiles': smi}, 'observed': got, 'expected': want,
                                  'script': "import pgradd.ThermoChem\nfrom pgradd.GroupAdd.Library import GroupLibrary\nprint(dict(GroupLibrary.Load(%r).GetDescriptors(%r)))  # expected %r\n" % (name, smi, want)})
             elif len(samples) < 4 and want[0] == 'ok' and len(want[1]) > 2:
@@ -1076,7 +1100,7 @@ def c02_reference(tier, seed):
                     same = (got[0] == want[0]) and (got[0] == 'fail' and got[1] == 'PatternMatchError' or got[0] == 'ok' and got[1] == want[1])
                     if want[0] == 'ok':
                         distinct += 1
-                    if not same and len(viol) < 25:
+                    if not same and _room(viol, 25):
                         viol.append({'id': 'syn-%s-%s-%s' % (base, vn, smi), 'input': {'scheme': base, 'variant': vn, 'smiles': smi}, 'observed': got, 'expected': want})
     finally:
         shutil.rmtree(tmp, ignore_errors=True)
@@ -1091,7 +1115,7 @@ def c03_spellings(tier, seed):
     from . import schemeref as S
     from rdkit import Chem
     rnd = random.Random(seed)
-    libs = real.LIBS if tier != 'quick' else ['BensonGA', 'GRWSurface2018', 'XieGA2022']
+    libs = real.LIBS if tier != 'quick' else ['BensonGA', 'GRWSurface2018', 'XieGA2022', 'PPY']
     k = 6 if tier == 'quick' else 25
     viol, n, distinct, samples = [], 0, 0, []
     for name in libs:
@@ -1123,7 +1147,7 @@ def c03_spellings(tier, seed):
                 got = S.real_descriptors(lib, f)
                 if got != base:
                     cls = 'K2:fused-six-rings' if fused else None
-                    if len(viol) < 15 or cls:
+                    if _room(viol, 15) or cls:
                         viol.append({'id': '%s-%s-%s' % (name, smi, kind), 'cls': cls, 'input': {'library': name, 'molecule': smi, 'form': kind, 'written': f if isinstance(f, str) else 'Chem.Mol'},
                                      'observed': got, 'expected': base,
                                      'script': "import pgradd.ThermoChem\nfrom pgradd.GroupAdd.Library import GroupLibrary\nlib = GroupLibrary.Load(%r)\nprint(dict(lib.GetDescriptors(%r)))\nprint(dict(lib.GetDescriptors(%r)))\n"
@@ -1131,7 +1155,7 @@ def c03_spellings(tier, seed):
             n += 1
             now = (Chem.MolToSmiles(keep), [sorted(a.GetPropNames()) for a in keep.GetAtoms()], [str(b.GetBondType()) for b in keep.GetBonds()],
                    [a.GetIsAromatic() for a in keep.GetAtoms()])
-            if now != snap and len(viol) < 15:
+            if now != snap and _room(viol, 15):
                 viol.append({'id': '%s-%s-caller-object-modified' % (name, smi), 'input': {'library': name, 'molecule object': 'Chem.AddHs(Chem.MolFromSmiles(%r))' % smi},
                              'observed': 'the molecule object handed to GetDescriptors was modified (atom properties / bond types / aromatic flags)', 'expected': 'the caller\'s object is left as it was',
                              'script': "import pgradd.ThermoChem\nfrom rdkit import Chem\nfrom pgradd.GroupAdd.Library import GroupLibrary\nlib = GroupLibrary.Load(%r)\nm = Chem.AddHs(Chem.MolFromSmiles(%r))\nprint(dict(lib.GetDescriptors(m)))\nprint(dict(lib.GetDescriptors(m)))   # expected the same again\n" % (name, smi)})
@@ -1212,7 +1236,7 @@ def c04_mixtures(tier, seed):
             else:
                 want = ('fail', 'a component cannot be decomposed')
                 ok = got[0] == 'fail'
-            if not ok and len(viol) < 15:
+            if not ok and _room(viol, 15):
                 viol.append({'id': '%s-%s.%s' % (name, a, b), 'input': {'library': name, 'A': a, 'B': b}, 'observed': got, 'expected': want,
                              'script': "import pgradd.ThermoChem\nfrom pgradd.GroupAdd.Library import GroupLibrary\nlib = GroupLibrary.Load(%r)\nfor s in (%r, %r, %r): print(dict(lib.GetDescriptors(s)))\n" % (name, a, b, a + '.' + b)})
         if len(samples) < 3 and pairs:
@@ -1311,7 +1335,7 @@ def c16_rewriter(tier, seed):
                 except Exception as e:    # noqa
                     got, cons = 'raised %s: %s' % (type(e).__name__, str(e)[:80]), True
                 if got != want or not cons:
-                    if len(viol) < 12:
+                    if _room(viol, 12):
                         viol.append({'id': '%s-%s' % (name, smi), 'input': {'rule': text, 'molecule': smi}, 'observed': got if cons else ['elements not conserved', got], 'expected': want,
                                      'script': "from rdkit import Chem\nfrom pgradd.RINGParser.Reader import Read\nq = Read(%r)\nprint([[Chem.MolToSmiles(f) for f in ps] for ps in q.RunReactants(Chem.MolFromSmiles(%r))])\n" % (text, smi)})
                 elif len(samples) < 3 and want:
@@ -1519,7 +1543,7 @@ def c17_closure(tier, seed):
                         bad = 'a seed is missing'
                 if bad and kcls and ((kcls.startswith('K8') and bad.startswith('species set differs: missing') and bad.endswith('extra []')) or (kcls.startswith('K9') and bad.startswith('species listed twice'))):
                     viol.append({'id': '%s-%s' % ('+'.join(seeds), '+'.join(rs)), 'cls': kcls, 'input': {'seeds': seeds, 'rules': [rules[r] for r in rs]}, 'observed': [bad, got], 'expected': sorted(want)})
-                elif bad and len(viol) < 16:
+                elif bad and _room(viol, 16):
                     viol.append({'id': '%s-%s' % ('+'.join(seeds), '+'.join(rs)), 'input': {'seeds': seeds, 'rules': [rules[r] for r in rs]}, 'observed': bad if isinstance(got, str) else [bad, got],
                                  'expected': sorted(want),
                                  'script': "from rdkit import Chem\nfrom pgradd.RDkitWrapper.GenRxnNet import GenerateRxnNet\nprint([Chem.MolToSmiles(m) for m in GenerateRxnNet(%r, %r)])\n" % (list(seeds), [rules[r] for r in rs])})
@@ -1544,7 +1568,7 @@ def c17_closure(tier, seed):
                     got = 'raised %s: %s' % (type(e).__name__, str(e)[:80])
                 want = sorted(Chem.MolToSmiles(Chem.MolFromSmiles(x)) if Chem.MolFromSmiles(x) is not None else x for x in closure([smi], [rk]))
                 distinct += 1
-                if got != want and len(viol) < 16:
+                if got != want and _room(viol, 16):
                     viol.append({'id': 'ring-text-%s-%s' % (rk, smi), 'input': {'seed': smi, 'rule (RING text)': ring[rk], 'earlier calls in this process': 'same rule on other spellings of the species'},
                                  'observed': got, 'expected': want,
                                  'script': "from rdkit import Chem\nfrom pgradd.RDkitWrapper.GenRxnNet import GenerateRxnNet\nR = %r\nfor s in %r:\n    print(s, sorted(Chem.MolToSmiles(m) for m in GenerateRxnNet([s], [R])))\n" % (ring[rk], spellings)})
@@ -1651,7 +1675,7 @@ def c15_histories(tier, seed):
                 trace.append(('decompose', name, smi))
                 n += 1
                 want = fresh_ref(recipe[name], smi, 'descriptors', None, None)
-                if got != want and len(viol) < 10:
+                if got != want and _room(viol, 10):
                     viol.append({'id': 'h%d-s%d' % (h, step), 'input': {'history': trace[:]}, 'observed': got, 'expected': want})
             elif op == 'estimate' and any(x[0] == name for x in decomp):
                 cands = [x for x in decomp if x[0] == name]
@@ -1668,7 +1692,7 @@ def c15_histories(tier, seed):
                 same = got[0] == want[0] and (got[0] == 'exc' or real.close(got[1], want[1], 1e-12, 1e-12))
                 if not same:
                     cls = 'K1:library-name-channel' if (se and last_decomposed.get(name) != smi) else None
-                    if len(viol) < 10 or cls:
+                    if _room(viol, 10) or cls:
                         viol.append({'id': 'h%d-s%d' % (h, step), 'cls': cls, 'input': {'history': trace[:]}, 'observed': got, 'expected': want,
                                      'script': "import pgradd.ThermoChem\nfrom pgradd.GroupAdd.Library import GroupLibrary\nlib = GroupLibrary.Load(%r)\nd1 = lib.GetDescriptors(%r)\nlib.GetDescriptors(%r)\n"
                                                "print(lib.Estimate(d1, 'thermochem').get_SoR(%r, S_elements=True))\n" % (name, smi, last_decomposed.get(name), T)})
@@ -1697,7 +1721,7 @@ def c15_histories(tier, seed):
         for nm in libs:
             # a load AFTER the history gives what a load gave before it (nothing cached, shared or rewritten behind the scenes)
             n += 1
-            if fp(real.load(nm, fresh=True)) != fp_clean[nm] and len(viol) < 14:
+            if fp(real.load(nm, fresh=True)) != fp_clean[nm] and _room(viol, 14):
                 viol.append({'id': 'h%d-later-load-%s' % (h, nm), 'input': {'history': trace, 'then': 'GroupLibrary.Load(%r)' % nm}, 'observed': 'contents differ from a load made before the history',
                              'expected': 'a load is independent of earlier merges into other library objects'})
         distinct += 1
@@ -1845,7 +1869,7 @@ def c11_algebra(tier, seed):
             g1 = parts(r1)
             ok1 = g1[1] == m1[1] and real.close(g1[0], m1[0], 1e-9, 1e-300) and (hasattr(r1, 'units') == any(e != 0 for e in m1[1]))
             if not ok1:
-                if len(viol) < 12:
+                if _room(viol, 12):
                     viol.append({'id': 'value-%d' % it, 'input': str(d1), 'observed': [g1[0], [str(e) for e in g1[1]], type(r1).__name__], 'expected': [m1[0], [str(e) for e in m1[1]]]})
                 continue
             distinct += 1
@@ -1879,7 +1903,7 @@ def c11_algebra(tier, seed):
                     want = ('ok', mf(m1[0], m2[0]))
                     close_call = abs(m1[0] - m2[0]) <= 1e-9 * max(abs(m1[0]), abs(m2[0]))
                     good = got[0] == 'ok' and (close_call or bool(got[1]) == want[1])
-                if not good and len(viol) < 12:
+                if not good and _room(viol, 12):
                     viol.append({'id': 'op-%d-%s' % (it, opn), 'input': {'a': str(d1), 'op': opn, 'b': str(d2)}, 'observed': str(got), 'expected': str(want)})
             if len(samples) < 3:
                 samples.append({'a': str(d1), 'b': str(d2)})
